@@ -90,6 +90,8 @@ func smtNum(v string, isFloat bool) (string, bool) {
 	return lit, true
 }
 
+var safetyKinds = map[string]bool{"index": true, "slice": true, "nil-deref": true, "panic": true, "div-zero": true, "type-assert": true, "nil-map": true, "makeslice-len": true}
+
 type replayPlan struct {
 	pkgDir   string
 	pkgName  string
@@ -109,7 +111,7 @@ func tryReplay(o checkOpts, e *Engine, results []*funcResult, ob *Obligation, v 
 		return false
 	}
 	// functions with string parameters: bounded search over a seed alphabet (strings are abstract in the models)
-	if ob.Kind == "ensures" && ob.Result != "unsat" {
+	if (ob.Kind == "ensures" || safetyKinds[ob.Kind]) && ob.Result != "unsat" {
 		if plan, why := e.planSearchReplay(fr, ob); plan != nil {
 			out, failed, err := runReplay(o, plan)
 			v.ReplayTest = plan.testSrc
